@@ -444,6 +444,13 @@ func (its *PushPullHandler) evaluatePushPullCase() (pushPullCase, errors.OrdaErr
 		if its.datatypeDoc == nil {
 			return caseMatchNothing, nil
 		}
+		if its.datatypeDoc.CollectionNum != its.collectionDoc.Num {
+			// datatype ids are looked up globally, but a client may only reach the datatypes of the
+			// collection it is registered in
+			msg := fmt.Sprintf("datatype '%s' does not belong to collection '%s'", its.DUID, its.collectionDoc.Name)
+			its.datatypeDoc = nil
+			return caseError, errors.PushPullAbortionOfClient.New(its.ctx.L(), msg)
+		}
 		return caseUsedDUID, nil
 	}
 	if its.datatypeDoc.Type == its.gotPushPullPack.Type.String() {
